@@ -25,7 +25,11 @@ META = dict(
          "requires wallet inputs; the RPC only offers them through psbtbumpfee). Known finding (key bump:shrunk-outputs-estimated-feerate): with "
          "caller-supplied outputs that make the replacement smaller than the original and no explicit feerate, EstimateFeeRate's assumption 'the "
          "replacement is at least as large as the original' is false and the replacement can pay LESS than the original's fee; the mempool refuses "
-         "it, yet CommitTransaction records it and marks the original as replaced.",
+         "it, yet CommitTransaction records it and marks the original as replaced. Second known finding (key bump:weight-rounding-feerate-diagram, "
+         "thorough tier): the wallet compares feerates per vbyte (weights rounded up); a replacement that has to add inputs at a feerate only "
+         "marginally above the original's can have the lower feerate per weight unit and fails the mempool's feerate-diagram check, again after "
+         "CommitTransaction has recorded it. Both are reproduced by TLC on the fee-arithmetic model (non-invariants PaysIncrementShrunk, "
+         "HigherRateWeight). A wallet descendant only counts if it is alive (a spender that is itself conflicted does not block a bump).",
     technique="TLA+ relation WalletSpend (Bump part) + fee arithmetic model checked exhaustively by TLC; TLC -simulate generates scenarios for a real "
               "wallet on a regtest node; TLC evaluates the relation on every logged call (trace validation)",
 )
@@ -117,7 +121,7 @@ def run(ctx):
         ctx._known.append(dict(status="known", property="C56", key=FINDING2_KEY, what="replacement with added inputs: feerate higher per vbyte (rounded up) but not per weight unit"))
     with concurrent.futures.ThreadPoolExecutor(max_workers=2) as ex:
         fut = ex.submit(alg_check, ctx) if only != "trace" else None
-        num, depth = (56, 26) if quick else (700, 30)
+        num, depth = (110, 26) if quick else (900, 30)
         tests, r = _wallet.gen_behaviours(ctx, "Sim_bump.cfg" if quick else "Sim_bump_t.cfg", num, depth, "gen")
         ctx.log("generator: %d behaviours, %d calls" % (len(tests), sum(len(t["steps"]) for t in tests)))
         lines, res = _wallet.run_scripts(ctx, binary, tests, "script")
